@@ -145,24 +145,26 @@ func c20Loops(c *Ctx, pkg string) {
 						}
 						class := map[ssa.Value]string{outP: "out", inP: "in", saltP: "salt"}
 						off := map[ssa.Value]int64{outP: 0}
+						w.cls, w.off = class, off // follow arguments into inlined helpers
+						class[hP] = "hash"
 						var combined ssa.Value
 						w.onSlice = func(w *pathWalker, s *ssa.Slice) {
-							if cl, ok := class[s.X]; ok {
+							if cl, ok := w.cls[s.X]; ok {
 								lo := int64(0)
 								if s.Low != nil {
 									lo, _ = w.env.eval(s.Low)
 								}
-								class[s], off[s] = cl, off[s.X]+lo
+								w.cls[s], w.off[s] = cl, w.off[s.X]+lo
 							}
 							if g, ok := s.X.(*ssa.Global); ok && g.Name() == "zero" {
-								class[s] = "zero"
+								w.cls[s] = "zero"
 							}
 						}
 						w.onPhi = func(w *pathWalker, ph *ssa.Phi, in ssa.Value) {
-							if cl, ok := class[in]; ok {
-								class[ph], off[ph] = cl, off[in]
+							if cl, ok := w.cls[in]; ok {
+								w.cls[ph], w.off[ph] = cl, w.off[in]
 							} else {
-								delete(class, ph)
+								delete(w.cls, ph)
 							}
 						}
 						type ctx struct {
@@ -179,22 +181,22 @@ func c20Loops(c *Ctx, pkg string) {
 								d, s := cc.Args[0], cc.Args[1]
 								if ms, ok := sliceBase(d).(*ssa.MakeSlice); ok && iter {
 									combined = ms
-									class[ms] = "combined"
-									lo := off[d]
+									w.cls[ms] = "combined"
+									lo := w.off[d]
 									if sl2, isS := d.(*ssa.Slice); isS && sl2.Low != nil {
 										lo, _ = w.env.eval(sl2.Low)
 									}
-									combinedOK[fmt.Sprintf("%s@%d", class[s], lo)] = true
+									combinedOK[fmt.Sprintf("%s@%d", w.cls[s], lo)] = true
 									return ""
 								}
-								if class[d] == "out" {
+								if w.cls[d] == "out" {
 									dl, _ := w.env.eval(d)
 									sl3, _ := w.env.eval(s)
-									copies = append(copies, fmt.Sprintf("out@%d+%d", off[d], min(dl, sl3)))
+									copies = append(copies, fmt.Sprintf("out@%d+%d", w.off[d], min(dl, sl3)))
 								}
 								return ""
 							}
-							if !cc.IsInvoke() || cc.Value != ssa.Value(hP) {
+							if !cc.IsInvoke() || w.cls[cc.Value] != "hash" {
 								return ""
 							}
 							switch cc.Method.Name() {
@@ -209,17 +211,17 @@ func c20Loops(c *Ctx, pkg string) {
 								}
 								a := cc.Args[0]
 								l, _ := w.env.eval(a)
-								switch class[a] {
+								switch w.cls[a] {
 								case "zero":
 									if cur.fed > 0 {
 										cur.parts = append(cur.parts, "zero-after-data")
 									}
 									cur.zeros += l
 								case "salt", "in":
-									cur.parts = append(cur.parts, class[a])
+									cur.parts = append(cur.parts, w.cls[a])
 									cur.fed += l
 								case "combined":
-									if off[a] != 0 {
+									if w.off[a] != 0 {
 										cur.parts = append(cur.parts, "combined-not-prefix")
 									}
 									cur.fed += l
